@@ -154,6 +154,12 @@ theorem imrb_correct (L : Layout) (hrb : gather L.nonrf L.rb_ = some L.rb)
             | cons _ _ => rfl
           simp [this, hrbE hr]
 
+/-- the rows the constructor state addresses for `imrb` are the `imrbPick` of `Props/C02.lean`
+(`imrbPick_correct`): `self.m[self._rb]` with `_rb = np.nonzero(vec[nonrf])[0]` -/
+theorem imrbPick_is_state_rows (nonrf rb : List Nat) :
+    gather nonrf (positionsFrom (fun j => rb.contains j) 0 nonrf) = some (imrbPick nonrf rb) :=
+  gather_positions _ nonrf
+
 /-- the recorded inputs of the four findings that lived in this bookkeeping, evaluated:
 * F8  (`m=[2,3,4]`, `k=[0,50,90](1+.02j)`, rb detected `[0]`, complex uncoupled): after
   `get_su_eig` the state has `_rb = []`, so `invm[_rb]` (the pre-fix expression, `uncReal = true`)
